@@ -282,8 +282,9 @@ class BufferCursor(Cursor):
     def _eat_regex(self, regex: str | re.Pattern | None) -> None:
         if not regex:
             return
-        while self._matchre_fast(regex):
-            pass
+        p = self.pos
+        while self._matchre_fast(regex) and self.pos > p:
+            p = self.pos
 
     def _eat_regex_list(self, regex: str | re.Pattern | None) -> list[str]:
         if not regex:
@@ -542,8 +543,10 @@ class Buffer(Text):
         if not regex:
             return False
         seen = False
-        while self._matchre_fast(regex):
+        p = self.pos
+        while self._matchre_fast(regex) and self.pos > p:
             seen = True
+            p = self.pos
         return seen
 
     def _eat_regex_list(self, regex: str | re.Pattern | None) -> list[str]:
